@@ -15,6 +15,8 @@
 
 mod sexp;
 mod h_c18;
+mod h_c17;
+mod h_c15;
 
 use std::io::{self, BufRead, Write};
 
@@ -67,6 +69,8 @@ fn dispatch(v: &Val) -> Val {
         1800 => h_c18::chunked(&l[1]),
         1801 => h_c18::md5(&l[1]),
         1802 => h_c18::provider_hasher(&l[1]),
+        1700 => h_c17::run(&l[1]),
+        1500 => h_c15::run(&l[1]),
         _ => sexp::bad_input(),
     }
 }
